@@ -10,6 +10,10 @@ namespace Pelite.Pe
 inductive Addr | rva (r : Nat) | va (a : Nat)
   deriving Repr
 
+def Addr.isZero : Addr → Bool
+  | .rva r => r == 0
+  | .va a => a == 0
+
 /-- `self.slice(rva, min, align)` or `self.read(va, min, align)` -/
 def View.at (v : View) (a : Addr) (min align : Nat) : Out Ref :=
   match a with
@@ -45,7 +49,8 @@ def View.dervaInto (v : View) (a : Addr) (len : Nat) : Out (List UInt8) :=
 
 -- src: pe.rs:derva_slice / deref_slice
 def View.dervaSlice (v : View) (a : Addr) (size align len : Nat) : Out Ref :=
-  if size * len ≥ 18446744073709551616 then .err .overflow       -- checked_mul
+  if a.isZero then .err .null                                    -- `rva == 0` / `ptr.is_null()` first
+  else if size * len ≥ 18446744073709551616 then .err .overflow  -- checked_mul
   else match v.at a (size * len) align with
     | .ok r => .ok ⟨r.off, size * len, align⟩
     | .err e => .err e | .panic s => .panic s | .ub s => .ub s | .diverge => .diverge
